@@ -36,7 +36,6 @@ def run(ctx):
     else:
         c07.linker_models(ctx, c07.FAMILIES)
         cases = c07.gen_programs(ctx, c07.FAMILIES, 250 if ctx.quick() else 0, rng)
-        cases += load_seeds()
         extra = []
         rand_args = ["-builtin", "-corpus", corpus, "-random", "4000" if ctx.quick() else "300000"]
     rows, crashes = vlib.run_driver_batches(ctx, drv, "c08", cases, args=extra, batch=max(20, len(cases) // 32 + 1),
@@ -61,8 +60,3 @@ def run(ctx):
                        "(16 kinds x length 1..3 + include loops), and seeded token-level mutants of gen/internal/tests/thrift "
                        "and random bytes; compile then generate, strict and non-strict; non-trivial = distinct file sets",
                        exhaustive=False)
-
-
-def load_seeds():
-    p = os.path.join(vlib.SPECS, "seeds", "linker_sensitive.ndjson")
-    return vlib.read_ndjson(p) if os.path.exists(p) else []
